@@ -56,3 +56,15 @@ def verdict(ok, nontrivial=True):
     if TWIN:
         return not nontrivial
     return ok
+
+
+def pick(seq, i):
+    """seq[i] for a symbolic index i, returning the *concrete* element (forks on i).
+
+    Plain indexing of a list of classes with a symbolic int makes CrossHair build a symbolic
+    type, for which `is` comparisons and dict lookups in the code under test do not behave like
+    the real class."""
+    for k in range(len(seq)):
+        if i == k:
+            return seq[k]
+    raise IndexError(i)
